@@ -36,14 +36,29 @@ theorem decNat_digit (i : Nat) (h : i < 8) : decNat i = [Char.ofNat (48 + i)] :=
 theorem flagBits_setWidth (c : CC) : (VM.flagBits c).setWidth 3 = c.bits := by
   cases c <;> decide
 
+theorem printIntegerInner_eq (mi : Bool) (w : World) (v : Word) :
+    VM.printIntegerInner mi w v = puts mi w (Tables.integerInner v) := by
+  unfold VM.printIntegerInner Tables.integerInner
+  simp only [printStr_eq, ← puts_append, List.append_assoc]
+
 theorem printRegisters_eq (mi : Bool) (m : Machine) (w : World) :
-    VM.printRegisters mi m w = puts mi w (regDump m) := by
-  unfold VM.printRegisters regDump
-  simp only [printStr_eq, flagBits_setWidth]
-  have hr : List.range 8 = [0,1,2,3,4,5,6,7] := by decide
-  rw [hr]
-  simp only [List.foldl_cons, List.foldl_nil, ← puts_append]
-  simp [decNat_digit, VM.reg, Machine.getReg]
+    VM.printRegisters mi m w = puts mi w (if mi then regDump m else Tables.regTable m) := by
+  cases mi with
+  | true =>
+    unfold VM.printRegisters regDump
+    simp only [if_true, printStr_eq, flagBits_setWidth]
+    have hr : List.range 8 = [0,1,2,3,4,5,6,7] := by decide
+    rw [hr]
+    simp only [List.foldl_cons, List.foldl_nil, ← puts_append]
+    simp [decNat_digit, VM.reg, Machine.getReg]
+  | false =>
+    unfold VM.printRegisters Tables.regTable Tables.regRow
+    simp only [Bool.false_eq_true, if_false, printStr_eq, printIntegerInner_eq, flagBits_setWidth]
+    have hr : List.range 8 = [0,1,2,3,4,5,6,7] := by decide
+    rw [hr]
+    simp only [List.foldl_cons, List.foldl_nil, List.map_cons, List.map_nil, List.flatten_cons,
+      List.flatten_nil, ← puts_append, List.append_assoc, List.append_nil]
+    simp [VM.reg, Machine.getReg]
 
 theorem asciiOf_eq (x : Word) : VM.asciiOf x = lowChar x := by
   unfold VM.asciiOf lowChar
